@@ -140,15 +140,23 @@ def instances(tier):
     q = tier == "quick"
     out = []
     if q:
+        # S = 50: a request segment carries 44 octets of service data, a response segment 45; a private transfer
+        # body is 11 octets + payload, so payload 60 -> 2 segments, 100 -> 3, 150 -> 4
         cfgs = [
             dict(S=50, wc=2, ws=2, req=(60, 60), resp=(2, 2), nf=1, kinds=REPAIRABLE, horizon=12),
             dict(S=50, wc=2, ws=2, req=(2, 2), resp=(60, 60), nf=1, kinds=REPAIRABLE, horizon=12),
             dict(S=50, wc=1, ws=3, req=(100, 100), resp=(100, 100), nf=1, kinds=[nl.DROP, nl.DUP], horizon=16),
             dict(S=50, wc=3, ws=1, req=(150, 150), resp=(2, 2), nf=1, kinds=[nl.DROP, nl.DUP], horizon=14),
             dict(S=50, wc=4, ws=4, req=(2, 2), resp=(150, 150), nf=1, kinds=[nl.DROP, nl.HOLD], horizon=14),
-            # lengths on both sides of the first boundaries, no fault: pure slicing/reassembly
-            dict(S=50, wc=2, ws=2, req=(38, 42), resp=(2, 2), nf=0, kinds=[nl.DROP], horizon=0),
-            dict(S=50, wc=2, ws=2, req=(2, 2), resp=(88, 92), nf=0, kinds=[nl.DROP], horizon=0),
+            # a request window of several segments in flight: loss / overtaking inside the window
+            dict(S=50, wc=4, ws=4, req=(150, 150), resp=(2, 2), nf=1, kinds=REPAIRABLE, horizon=14),
+            dict(S=50, wc=8, ws=3, req=(200, 200), resp=(2, 2), nf=1, kinds=[nl.DROP, nl.HOLD], horizon=14),
+            # lengths on both sides of the boundaries (unsegmented/2 segments, 2/3 segments), no fault: pure
+            # slicing, segment count, more-follows and reassembly
+            dict(S=50, wc=2, ws=2, req=(33, 37), resp=(2, 2), nf=0, kinds=[nl.DROP], horizon=0),
+            dict(S=50, wc=2, ws=2, req=(75, 80), resp=(2, 2), nf=0, kinds=[nl.DROP], horizon=0),
+            dict(S=50, wc=2, ws=2, req=(2, 2), resp=(34, 38), nf=0, kinds=[nl.DROP], horizon=0),
+            dict(S=50, wc=2, ws=2, req=(2, 2), resp=(77, 82), nf=0, kinds=[nl.DROP], horizon=0),
         ]
         for c in cfgs:
             out.append(Inst(seg_payload, c, budget=80, path_timeout=60, label=label(c)))
